@@ -573,7 +573,8 @@ def run_property(cfg, tier, seed):
     trusted (extra trusted-base lines), assumptions, known(case, impl, model, spec) -> finding id|None,
     differs (optional), extra_args(tier) (optional), post(res) (optional extra checks),
     shrink_candidates(case) -> [case] and shrink_budget (optional, see `shrink`),
-    pre_build(vf) -> {"failures": [text], "notes": {..}, "details": {..}} (optional): runs before the
+    pre_build(vf) -> {"failures": [text], "notes": {..}, "details": {..}} (optional; one callable or a list of them,
+    one per translator -- lib/macro_translate.py, lib/const_translate.py): runs before the
     Props build (e.g. regenerates a generated .v file from the tree under check); its failures are
     broken proof obligations, its notes go to the evidence (coverage.pre_build), its details to the replay."""
     t0 = time.time()
@@ -584,11 +585,19 @@ def run_property(cfg, tier, seed):
 
     # 0. property-specific preparation of the build
     pre = {"failures": [], "notes": {}, "details": {}}
-    if "pre_build" in cfg:
+    hooks = cfg.get("pre_build") or []
+    hooks = [hooks] if callable(hooks) else list(hooks)
+    runs = []
+    for hook in hooks:
         try:
-            pre = cfg["pre_build"](sys.modules[__name__])
+            runs.append(hook(sys.modules[__name__]))
         except Exception as e:      # a hook never crashes the check: it is a broken obligation
-            pre = {"failures": [f"pre_build hook of {pid} failed: {e!r}"], "notes": {"error": repr(e)}, "details": {}}
+            runs.append({"failures": [f"pre_build hook of {pid} failed: {e!r}"], "notes": {"error": repr(e)}, "details": {}})
+    if len(runs) == 1:
+        pre = runs[0]
+    elif runs:                      # several translators: one entry each
+        pre = {"failures": [f for r in runs for f in r["failures"]], "notes": {"hooks": [r.get("notes", {}) for r in runs]},
+               "details": {"hooks": [r["details"] for r in runs if r.get("details")]} if any(r.get("details") for r in runs) else {}}
 
     # 1. proofs
     bad = audit_sources()
